@@ -317,7 +317,10 @@ theorem applyAddl_total {addl : EdgeMap} (hk : KeysIn m addl) {nodes : List ENod
 
 /-! ### the conversion before `make_ids_unique` -/
 
-theorem fromMrsWith_total {pm : PM} (hpm : pm = .off ∨ pm = .std) :
+theorem fromMrsWith_total {pm : PM}
+    (hadd : ∀ nodes, All2 (fun p n => n.id = p.1 ∧ NodeData m p n) m.preds nodes →
+      RawJust m (fun s r t => BVJust s r t ∨ ArgJust m s r t) nodes →
+      ∃ addl, addlOf pm m reps nodes = .ok addl ∧ KeysIn m addl) :
     ∃ e, fromMrsWith pm m reps = .ok (e, []) := by
   obtain ⟨hiv, _⟩ := wf_parts hwf
   have hid := ids_nodup hnr (completeIVs_of_ivProperty hiv)
@@ -334,11 +337,7 @@ theorem fromMrsWith_total {pm : PM} (hpm : pm = .off ∨ pm = .std) :
     rw [All2.map_eq (f := fun p : Pred => p.1) (g := fun n : ENode => n.id)
       (hN'.imp (fun _ _ _ _ ⟨a, _⟩ => a))]
     exact preds_map_fst m
-  have hadd : ∃ addl, addlOf pm m reps nodes = .ok addl ∧ KeysIn m addl := by
-    rcases hpm with rfl | rfl
-    · exact ⟨[], rfl, by intro k es hk; simp at hk⟩
-    · exact findPredicateModifiers_total hwf hnr hhr hreps hN' hJ
-  obtain ⟨addl, h4, hkeys⟩ := hadd
+  obtain ⟨addl, h4, hkeys⟩ := hadd nodes hN' hJ
   obtain ⟨nodes', h5⟩ := applyAddl_total hwf hnr hhr hreps hkeys hids
   refine ⟨{ top := some t, nodes := nodes' }, ?_⟩
   simp only [fromMrsWith, h1, h2, h3, h4, h5, List.append_nil]
@@ -356,22 +355,29 @@ theorem renameId_total {ids lkb : List Var} (hlen : ids.length = lkb.length) {x 
   obtain ⟨j, hj⟩ := dlookup_of_mem_keys hk
   exact ⟨j, renameId_iff.2 hj⟩
 
-/-- `from_mrs` succeeds without warnings on a well-formed MRS all of whose selected scopes
-have a representative -/
-theorem fromMrs_total_aux {pm : PM} {uniq : Bool} {m : MRS} (hwf : m.isWellFormed = true)
-    (hnr : NoReserved m) (hhr : HasReps m) (hpm : pm = .off ∨ pm = .std) :
+/-- `from_mrs` succeeds without warnings on a well-formed MRS all of whose selected scopes have a
+representative, for ANY `predicate_modifiers` argument that (`hadd`) returns a mapping whose keys are
+EP ids and (`hJ2`) whose edges end at EP ids -/
+theorem fromMrs_total_gen {pm : PM} {uniq : Bool} {m : MRS} (hwf : m.isWellFormed = true)
+    (hnr : NoReserved m) (hhr : HasReps m)
+    (hadd : ∀ reps, m.representatives = .ok reps → ∀ nodes,
+      All2 (fun p n => n.id = p.1 ∧ NodeData m p n) m.preds nodes →
+      RawJust m (fun s r t => BVJust s r t ∨ ArgJust m s r t) nodes →
+      ∃ addl, addlOf pm m reps nodes = .ok addl ∧ KeysIn m addl)
+    (hJ2 : ∀ reps nodes addl, RepsOK m reps → addlOf pm m reps nodes = .ok addl →
+      AddlJ m (fun _ _ _ => True) addl) :
     ∃ e, fromMrs pm uniq m = .ok (e, []) := by
   obtain ⟨hiv, _⟩ := wf_parts hwf
   have hid := ids_nodup hnr (completeIVs_of_ivProperty hiv)
   obtain ⟨reps, hreps⟩ := MRS.representatives_total m
   have hr := representatives_repsOK hreps
-  obtain ⟨raw, hwith⟩ := fromMrsWith_total hwf hnr hhr hreps hpm
+  obtain ⟨raw, hwith⟩ := fromMrsWith_total hwf hnr hhr hreps (hadd reps hreps)
   have hraw : fromMrsRaw pm m = .ok (raw, []) := by
     simp only [fromMrsRaw, hreps, hwith]
   cases uniq with
   | false => exact ⟨raw, by simp only [fromMrs, hraw]; rfl⟩
   | true =>
-    obtain ⟨_, _, hN, hJ⟩ := fromMrsWith_spec hid hnr hr hpm hwith
+    obtain ⟨hN, hJ, _⟩ := fromMrsRaw_gen hid hnr hJ2 hraw
     obtain ⟨top, _, _, _, _, _, htop, _, _, _, _, hetop, _⟩ := fromMrsWith_decomp hwith
     have hlen : m.ids.length = (lkbIds 1 m.preds).length := by
       rw [lkbIds_length, ← preds_map_fst m, List.length_map]
@@ -409,6 +415,22 @@ theorem fromMrs_total_aux {pm : PM} {uniq : Bool} {m : MRS} (hwf : m.isWellForme
     obtain ⟨nodes', hnodes'⟩ := hnodes
     refine ⟨{ top := top', nodes := nodes' }, ?_⟩
     simp only [fromMrs, hraw, makeIdsUnique, htop'', hnodes', if_true]
+
+theorem fromMrs_total_aux {pm : PM} {uniq : Bool} {m : MRS} (hwf : m.isWellFormed = true)
+    (hnr : NoReserved m) (hhr : HasReps m) (hpm : pm = .off ∨ pm = .std) :
+    ∃ e, fromMrs pm uniq m = .ok (e, []) := by
+  have hid := ids_nodup hnr (completeIVs_of_ivProperty (wf_parts hwf).1)
+  apply fromMrs_total_gen hwf hnr hhr
+  · intro reps hreps nodes hN hJ
+    rcases hpm with rfl | rfl
+    · exact ⟨[], rfl, by intro k es hk; simp at hk⟩
+    · exact findPredicateModifiers_total hwf hnr hhr hreps hN hJ
+  · intro reps nodes addl hr h4
+    rcases hpm with rfl | rfl
+    · simp only [addlOf, Except.ok.injEq] at h4
+      subst h4
+      intro k es hk; simp at hk
+    · exact (addlOK_iff.1 (findPredicateModifiers_ok hr hid h4)).weaken (fun _ _ _ _ => trivial)
 
 /-! ### an executable sufficient test for `HasReps` -/
 
